@@ -158,7 +158,7 @@ class Stash:
 
         # Apply the stash changes to the working tree and index
         # Get config for working directory update
-        config = self._repo.get_config()
+        config = self._repo.get_config_stack()
         honor_filemode = config.get_boolean(b"core", b"filemode", os.name != "nt")
         validate_path_element = get_path_element_validator(config)
 
